@@ -67,23 +67,39 @@ def run(p, led, tier):
     REN = dict_key_field(p, tel, "get_statistics", "renewal_count")
     REASON = dict_key_field(p, tel, "get_statistics", "senescence_reason")
 
-    def _clock_field(limit_attr):
-        """the timestamp F such that `now − self.F` is compared with self.<limit_attr> somewhere in the class"""
-        subs = {}
-        for n in ast.walk(tel.node):
-            if isinstance(n, ast.Assign) and len(n.targets) == 1 and isinstance(n.targets[0], ast.Name) and isinstance(n.value, ast.BinOp) and isinstance(n.value.op, ast.Sub) and is_self_attr(n.value.right):
-                subs[n.targets[0].id] = n.value.right.attr
-        for n in ast.walk(tel.node):
-            if isinstance(n, ast.Compare) and any(is_self_attr(x, limit_attr) for x in ast.walk(n)):
-                for x in ast.walk(n):
-                    if isinstance(x, ast.BinOp) and isinstance(x.op, ast.Sub) and is_self_attr(x.right):
-                        return x.right.attr
-                    if isinstance(x, ast.Name) and x.id in subs:
-                        return subs[x.id]
-        return None
-    STARTED, LASTACT = _clock_field("max_lifetime"), _clock_field("idle_timeout")
+    def _written_with_clock(mname):
+        """private fields that the public method `mname` sets to the current time on some path from NASCENT / ACTIVE
+        (decided by interpretation: the clock is a symbolic value named 'clock…')"""
+        m = p.find_method(tel, mname)
+        if m is None:
+            return set()
+        out = set()
+        for start_ in ("NASCENT", "ACTIVE"):
+            def go(o, _s=start_):
+                it = Interp(p, o)
+                obj = it.instantiate(tel, [], {"max_operations": Unknown("max_operations"), "error_threshold": Unknown("error_threshold"), "allow_renewal": True, "silent": True,
+                                               "max_lifetime_hours": Unknown("max_lifetime_hours"), "idle_timeout_minutes": Unknown("idle_timeout_minutes"), "on_phase_change": None, "on_senescence": None})
+                obj.fields[PH] = it.enum_member(phase, _s)
+                it.events.clear()
+                it.watch_fields = {("Telomere", "*")}
+                try:
+                    it.call_fi(m, [obj] + [Unknown(a) for a in m.params() if a != "self"], {})
+                except PyRaise:
+                    pass
+                return {ev[2] for ev in it.events if ev[0] == "write" and isinstance(ev[4], Unknown) and "clock" in ev[4].sym and ev[2].startswith("_")}
+            try:
+                for _, fs in explore(go, max_paths=200):
+                    out |= fs
+            except Imprecise:
+                pass
+        return out
+    by_start, by_beat = _written_with_clock("start"), _written_with_clock("heartbeat")
+    st_only = sorted(by_start - by_beat)
+    beat = sorted(by_beat & by_start) or sorted(by_beat)
+    STARTED = st_only[0] if len(st_only) == 1 else None
+    LASTACT = beat[0] if len(beat) == 1 else None
     for nm_, v_ in (("get_phase()", PH), ("get_statistics()['telomere_length']", LEN), ("get_statistics()['error_count']", ERR), ("get_statistics()['senescence_reason']", REASON),
-                    ("the lifetime clock in check_timeouts", STARTED), ("the idle clock in check_timeouts", LASTACT)):
+                    ("the start clock (set by start(), not by heartbeat())", STARTED), ("the activity clock (set by heartbeat())", LASTACT)):
         if v_ is None:
             raise AnchorError(f"Telomere: the field behind {nm_} could not be identified")
     led.extra["fields"] = dict(phase=PH, remaining=LEN, errors=ERR, operations=OPS, renewals=REN, reason=REASON, started=STARTED, last_activity=LASTACT)
